@@ -32,7 +32,17 @@ RULE = (
     "(prices around 1e6 .. 1e8 +- units or cents, unix timestamps in seconds / milliseconds inside a short window, base + s * u; "
     "whole numbers or doubles, some negated), every criterion (1/2) or next to ordinary criteria (1/2; always for EntropyWeighter), "
     "weighter classes cycled (StdWeighter and CRITIC most often): there the formulas must hold up to rounding relative to the SPREAD "
-    "of a criterion, not to its level (see ASSUMPTIONS); incoming "
+    "of a criterion, not to its level (see ASSUMPTIONS); on top of these, a FIXED SHARE (40 quick / 400 thorough) of matrices whose "
+    "criteria are ALL STORED IN ONE NARROW OR UNSIGNED INTEGER TYPE (uint8 / uint16 / uint32 / uint64 / int8 / int16, cycled; an "
+    "np.array(..., dtype=that type) handed to mkdm, or a float array with dtypes=[that type] * n; the stored dtype is asserted): "
+    "pixel intensities, percentages, Likert answers, counts, identifiers, signed readings over the whole range of the type - in "
+    "every criterion the difference of some two cells is NOT representable in the storage type (unsigned: any smaller-minus-larger; "
+    "int8 / int16: max - min beyond 127 / 32767), in most criteria the first alternative is not the smallest, and the permuted "
+    "presentation starts with another alternative; weighter classes cycled (StdWeighter every other case; EntropyWeighter on the "
+    "unsigned types only: positive cells); and a FIXED SHARE (40 quick / 400 thorough) of cases whose INCOMING weights hold EXACT "
+    "ZEROS next to positive ones ([0.5, 0, 0.25, 0.25], a 0/1 mask, one criterion switched off, all but one switched off, -0.0): "
+    "in the first incoming vector, in the second, or in both (at other positions), every weighter class cycled, over every matrix "
+    "family (narrow-integer storage included); the computed weights must not depend on them; incoming "
     "weights: pairwise distinct, ABSENT (matrix built without weights: default all-ones), explicit ones, a uniform constant (3.5, "
     "k/8, a double), 1/n, base_value/n, b'/n for another base_value b', or partly tied - for the first and for the second incoming "
     "vector, every weighter, every parameterisation; weighters: EqualWeighter(base_value), StdWeighter, EntropyWeighter, "
@@ -475,6 +485,96 @@ def _is_level(family):
     return str(family).startswith("long")
 
 
+NARROW_DTYPES = ["uint8", "uint16", "uint32", "uint64", "int8", "int16"]
+NARROW_CYCLE = ["StdWeighter", "CRITIC", "StdWeighter", "EntropyWeighter", "StdWeighter", "EqualWeighter", "StdWeighter", "CRITIC"]
+ZERO_CYCLE = ["EqualWeighter", "StdWeighter", "EntropyWeighter", "CRITIC"]
+ZERO_FAMILIES = [None, "narrow", None, "int", "lowcv"]
+ZERO_MODES = ["first", "second", "both"]
+
+
+def _narrow_range(dtype):
+    info = np.iinfo(np.dtype(dtype))
+    return int(info.min), int(info.max)
+
+
+def _narrow_column(rng, m, dtype, positive):
+    """whole numbers as they are held in a narrow / unsigned integer type: unsigned - pixel intensities and percentages (uint8),
+    Likert answers, counts, sensor readings, identifiers up to the top of the type (never beyond 2^53: every cell is also a
+    double); signed (int8 / int16) - readings over the whole range of the type.  In every criterion the difference of some two
+    cells is not representable in the type"""
+    lo_t, hi_t = _narrow_range(dtype)
+    hi_t = min(hi_t, 2 ** 53)
+    lo = 1 if positive else 0
+    if lo_t == 0:
+        kind = rng.choice(["full", "full", "top", "percent", "likert", "counts"])
+        if kind == "full":
+            col = [rng.randint(lo, hi_t) for _ in range(m)]
+        elif kind == "top":  # values close to the top of the type (saturated sensors, large identifiers)
+            a = hi_t - rng.randint(1, max(2, hi_t // rng.choice([2, 4, 16])))
+            col = [rng.randint(max(lo, a), hi_t) for _ in range(m)]
+        elif kind == "percent":
+            col = [rng.randint(lo, 100) for _ in range(m)]
+        elif kind == "likert":
+            col = [rng.randint(1, rng.choice([5, 7, 10])) for _ in range(m)]
+        else:
+            col = [rng.randint(lo, min(hi_t, 10 ** rng.randint(2, 15))) for _ in range(m)]
+    else:
+        kind = rng.choice(["full", "full", "wide"])
+        if kind == "full":
+            col = [rng.randint(lo_t, hi_t) for _ in range(m)]
+        else:
+            a, b = rng.randint(lo_t, lo_t // 2), rng.randint(hi_t // 2, hi_t)
+            col = [rng.randint(a, b) for _ in range(m)]
+            i, k = rng.sample(range(m), 2)
+            col[i], col[k] = a, b
+    return col
+
+
+def _wraps(col, dtype):
+    """the difference of some two cells of the criterion is not representable in the storage type"""
+    lo_t, hi_t = _narrow_range(dtype)
+    if lo_t == 0:
+        return max(col) > min(col)
+    return max(col) - min(col) > hi_t
+
+
+def _narrow_matrix(rng, m, n, dtype, positive):
+    """every criterion stored in ONE narrow / unsigned integer type; None when some criterion has no unrepresentable difference"""
+    cols = []
+    for _ in range(n):
+        col = _narrow_column(rng, m, dtype, positive)
+        for i in range(1, m):
+            if rng.random() < 0.08:
+                col[i] = col[rng.randrange(i)]
+        if not _wraps(col, dtype):
+            return None
+        cols.append([float(x) for x in col])
+    return [[cols[j][i] for j in range(n)] for i in range(m)]
+
+
+def _zero_weights(rng, n, family):
+    """an incoming weight vector with EXACT zeros next to positive entries (criteria the decision maker switched off, a 0/1 mask,
+    a sparse hand-written vector): a non-empty strict subset of the positions is 0.0 (sometimes -0.0)"""
+    how = rng.randrange(5)
+    if how == 0:  # shares that sum to 1, some of them zero: [0.5, 0, 0.25, 0.25]
+        k = [rng.randint(1, 8) for _ in range(n)]
+        w = [x / 16 for x in k]
+    elif how == 1:  # 0/1 mask
+        w = [1.0] * n
+    elif how == 2:
+        c = rng.choice([3.5, 0.5, 2.0, 0.1, 100.0, 1.0 / n])
+        w = [c] * n
+    else:
+        w = G.weights(rng, n, "dyadic" if family == "dyadic" else "float")
+    nz = rng.choice([1, 1, rng.randint(1, n - 1), n - 1])
+    for j in rng.sample(range(n), nz):
+        w[j] = -0.0 if rng.random() < 0.1 else 0.0
+    if how == 0:
+        tot = sum(w)
+        w = [x / tot if x else x for x in w]
+    return w
+
+
 WEIGHT_KINDS = ["distinct", "distinct", "distinct", "absent", "ones", "const", "const", "1/n", "base/n", "otherbase/n", "partly-tied"]
 
 
@@ -485,6 +585,8 @@ def _incoming(rng, n, family, spec, kind=None):
     b = float(spec.get("base_value", 1.0))
     if kind == "absent":
         return kind, None
+    if kind == "with-zeros":
+        return kind, _zero_weights(rng, n, family)
     if kind == "ones":
         return kind, [1.0] * n
     if kind == "const":
@@ -556,9 +658,11 @@ def _sequence(rng, spec, A, objs, family=None):
     return None
 
 
-def one_case(rng, max_m=12, family=None, cls=None, max_long=320):
+def one_case(rng, max_m=12, family=None, cls=None, max_long=320, storage=None, zeros=None):
     """family / cls: forced matrix family ("int": whole-number raw data, "lowcv": criteria with a tiny relative spread, "long":
-    101 .. max_long alternatives, criteria on a large level with a small spread) and weighter class; None = drawn"""
+    101 .. max_long alternatives, criteria on a large level with a small spread, "narrow": every criterion stored in the narrow /
+    unsigned integer type `storage`) and weighter class; None = drawn.  zeros: "first" / "second" / "both" - which incoming
+    weight vector(s) hold exact zeros next to positive entries"""
     forced = family
     sub = rng.random()  # drawn once per case: rejection (conditioning caps) must not shift the shares of the sub-families
     for _ in range(400):
@@ -568,8 +672,20 @@ def one_case(rng, max_m=12, family=None, cls=None, max_long=320):
         family = forced or rng.choice(["dyadic", "dyadic", "float", "unit", "unit"])
         positive = spec["cls"] == "EntropyWeighter" or rng.random() < 0.6
         objs = G.objectives(rng, n, rng.choice(["max", "min", "mixed", "mixed", "mixed"]))
-        declared, int_build = None, None
-        if family == "int":
+        declared, int_build, dtype = None, None, None
+        if family == "narrow":
+            dtype = storage or rng.choice(NARROW_DTYPES)
+            if spec["cls"] == "EntropyWeighter" and dtype.startswith("int"):
+                dtype = "u" + dtype  # positive cells: no two of them are further apart than a signed type can hold
+            positive = positive and dtype.startswith("u")
+            rows = _narrow_matrix(rng, m, n, dtype, positive)
+            if rows is None:
+                continue
+            declared = ["int"] * n
+            family = "narrow:" + dtype
+            # how the typed whole numbers reach mkdm: an np.array of that dtype / a float array + dtypes=[that dtype] * n
+            int_build = "nparray" if sub < 0.75 else "dtypes="
+        elif family == "int":
             mixed = sub < 1 / 3
             rows, is_int = _int_matrix(rng, m, n, positive, mixed)
             declared = ["int" if x else "float" for x in is_int]
@@ -616,15 +732,22 @@ def one_case(rng, max_m=12, family=None, cls=None, max_long=320):
         seq = _sequence(rng, spec, A, objs, family)
         if seq is None:
             continue
-        wk1, w1 = _incoming(rng, n, family, spec)
-        wk2, w2 = _incoming(rng, n, family, spec)
-        if wk2 == "absent" or w2 == w1:  # the second vector is always written out, and differs from the first
+        wk1, w1 = _incoming(rng, n, family, spec, "with-zeros" if zeros in ("first", "both") else None)
+        wk2, w2 = _incoming(rng, n, family, spec, "with-zeros" if zeros in ("second", "both") else None)
+        if zeros in ("second", "both"):
+            for _ in range(50):  # the second vector differs from the first (other positions switched off, or other positive entries)
+                if w2 != w1 and (n == 2 or w1 is None or [x == 0 for x in w2] != [x == 0 for x in w1] or zeros == "second"):
+                    break
+                wk2, w2 = _incoming(rng, n, family, spec, "with-zeros")
+            if w2 == w1:
+                continue
+        elif wk2 == "absent" or w2 == w1:  # the second vector is always written out, and differs from the first
             wk2, w2 = "distinct", G.weights(rng, n, "dyadic" if family == "dyadic" else "float")
             if w2 == w1:
                 w2 = [x * 2 + 0.0625 for x in w2]
         rp = list(range(m))
         cp = list(range(n))
-        while rp == list(range(m)):
+        while rp == list(range(m)) or (dtype and rp[0] == 0):  # narrow storage: the permuted presentation starts with another alternative
             rng.shuffle(rp)
         while cp == list(range(n)):
             rng.shuffle(cp)
@@ -633,7 +756,7 @@ def one_case(rng, max_m=12, family=None, cls=None, max_long=320):
             "dm": {"matrix": rows, "objectives": objs, "weights": w1 if w1 is not None else [1.0] * n, "no_weights": w1 is None,
                    "weights_kind": wk1, "weights2_kind": wk2, "alternatives": G.labels(rng, G.LABEL_POOL_ALT, m) if m <= len(G.LABEL_POOL_ALT) else _long_labels(rng, m),
                    "criteria": G.labels(rng, G.LABEL_POOL_CRIT, n), "dtypes": dtypes, "family": family,
-                   **({"int_build": int_build} if int_build else {})},
+                   **({"int_build": int_build} if int_build else {}), **({"dtype": dtype} if dtype else {})},
             "row_perm": rp, "col_perm": cp, "weights2": w2, "seq": seq,
         }
     raise RuntimeError("generator could not produce an in-domain case")
@@ -642,7 +765,10 @@ def one_case(rng, max_m=12, family=None, cls=None, max_long=320):
 def gen(ctx):
     """two cases in five are forced: whole-number raw data (ALL criteria integer typed 2/3, int next to float 1/3) and criteria
     with a tiny relative spread (alone 1/2, next to ordinary criteria 1/2), each with the weighter classes cycled so that every
-    weighter sees both in every tier; on top of them, spread evenly, the LONG matrices on a large level (36 quick / 360 thorough)"""
+    weighter sees both in every tier; on top of them, spread evenly, the LONG matrices on a large level (36 quick / 360 thorough);
+    then two dedicated loops with their own counts (40 quick / 400 thorough each): criteria ALL stored in one narrow / unsigned
+    integer type (types and weighter classes cycled), and incoming weights with EXACT ZEROS next to positive ones (first / second /
+    both vectors, weighter classes and matrix families cycled)"""
     rng = ctx.rng
     cases, k = [], 0
     n_main, n_long = ctx.n(300, 5000), ctx.n(36, 360)
@@ -657,6 +783,14 @@ def gen(ctx):
             k += 1
         else:
             cases.append(one_case(rng, max_m=ctx.n(10, 14)))
+    for i in range(ctx.n(40, 400)):
+        # ALL criteria stored in one narrow / unsigned integer type whose subtraction wraps around on these cells
+        cases.append(one_case(rng, max_m=ctx.n(10, 14), family="narrow", cls=NARROW_CYCLE[i % len(NARROW_CYCLE)],
+                              storage=NARROW_DTYPES[(i + i // len(NARROW_DTYPES)) % len(NARROW_DTYPES)]))
+    for i in range(ctx.n(40, 400)):
+        # incoming weights with exact zeros next to positive ones
+        cases.append(one_case(rng, max_m=ctx.n(10, 14), family=ZERO_FAMILIES[i % len(ZERO_FAMILIES)], cls=ZERO_CYCLE[i % len(ZERO_CYCLE)],
+                              zeros=ZERO_MODES[(i // len(ZERO_CYCLE)) % len(ZERO_MODES)]))
     return cases
 
 
@@ -674,6 +808,24 @@ def _mk(dm, rows=None, cols=None, weights=None):
     mat = np.array([[dm["matrix"][i][j] for j in cols] for i in rows], dtype=float)
     dts = dm.get("dtypes") or ["float"] * n
     build = dm.get("int_build")
+    if dm.get("dtype"):
+        # every criterion held in ONE narrow / unsigned integer type, as the user holds it: np.array(..., dtype=...) handed to mkdm
+        # (or a float array with dtypes=[that type] * n)
+        dt = np.dtype(dm["dtype"])
+        ints = [[int(dm["matrix"][i][j]) for j in cols] for i in rows]
+        with warnings.catch_warnings():
+            warnings.simplefilter("ignore")
+            out = skc.mkdm(
+                np.array(ints, dtype=dt) if build != "dtypes=" else mat, [dm["objectives"][j] for j in cols],
+                weights=None if absent else np.array([w[j] for j in cols], dtype=float),
+                alternatives=[dm["alternatives"][i] for i in rows], criteria=[dm["criteria"][j] for j in cols],
+                **({"dtypes": [dt] * len(cols)} if build == "dtypes=" else {}),
+            )
+        if not all(t == dt for t in out.dtypes.to_numpy()) or out.matrix.to_numpy().dtype != dt:
+            raise AssertionError("criteria are not stored in the integer type they were handed over in")
+        if [[int(x) for x in r] for r in out.matrix.to_numpy().tolist()] != ints:
+            raise AssertionError("stored cells differ from the whole numbers handed over")
+        return out
     if build in ("pyint", "npint") and all(t == "int" for t in dts):
         # raw whole-number data as the user holds it: nested lists of Python ints / an integer numpy array, no dtypes= given
         ints = [[int(dm["matrix"][i][j]) for j in cols] for i in rows]
@@ -1000,6 +1152,15 @@ def tags(case, obs):
                        "101-200" if len(d["matrix"]) <= 200 else "201+")]
     if any(len(set(c)) < len(c) for c in _cols(d["matrix"])):
         t.append("ties-in-a-criterion")
+    if d.get("dtype"):
+        t.append("ALL-criteria-stored-as:" + d["dtype"])
+        t.append("narrow-storage:first-alternative-not-the-smallest:" + (
+            "some-criterion" if any(c[0] > min(c) for c in _cols(d["matrix"])) else "no-criterion"))
+    for key in ("weights", "weights2"):
+        v = d["weights"] if key == "weights" else case.get("weights2")
+        if v and not (key == "weights" and d.get("no_weights")) and any(x == 0 for x in v):
+            t.append(("incoming" if key == "weights" else "second-incoming") + "-weights:exact-zeros:%s" % (
+                "all-but-one" if sum(1 for x in v if x != 0) == 1 else "some"))
     if "int" in d["dtypes"]:
         t.append("int-dtype-criterion")
     if all(x == "int" for x in d["dtypes"]):
